@@ -32,20 +32,21 @@ def proj (evs : List Ev) : List Tok := evs.flatMap projEv
   simp [proj]
 @[simp] theorem proj_nil : proj [] = [] := rfl
 
-/-- a body-parser state the header parser can create: a length-delimited body has bytes left -/
-def PWf (p : PState) : Prop := p.type = .length → p.length ≠ 0
-
-structure PayloadLaws (cfg : Cfg) : Prop where
-  complete_stable : ∀ (p : PState) (a b rest : Bytes) (ev : List Ev), PWf p →
+/-- the laws of the body parser, for the body-parser states satisfying `G` -/
+structure PayloadLaws (cfg : Cfg) (G : PState → Prop) : Prop where
+  complete_stable : ∀ (p : PState) (a b rest : Bytes) (ev : List Ev), G p →
     payloadFeed cfg p a = (.complete rest, ev) → payloadFeed cfg p (a ++ b) = (.complete (rest ++ b), ev)
-  complete_shrinks : ∀ (p : PState) (a rest : Bytes) (ev : List Ev), PWf p → a ≠ [] →
+  complete_shrinks : ∀ (p : PState) (a rest : Bytes) (ev : List Ev), G p → a ≠ [] →
     payloadFeed cfg p a = (.complete rest, ev) → rest.length < a.length
-  needs_wf : ∀ (p p' : PState) (a : Bytes) (ev : List Ev), PWf p →
-    payloadFeed cfg p a = (.needs p', ev) → PWf p'
-  needs_split : ∀ (p p' : PState) (a b : Bytes) (ev1 : List Ev), PWf p →
+  needs_closed : ∀ (p p' : PState) (a : Bytes) (ev : List Ev), G p →
+    payloadFeed cfg p a = (.needs p', ev) → G p'
+  needs_split : ∀ (p p' : PState) (a b : Bytes) (ev1 : List Ev), G p →
     payloadFeed cfg p a = (.needs p', ev1) → b ≠ [] →
     (payloadFeed cfg p (a ++ b)).1 = (payloadFeed cfg p' b).1 ∧
     proj (payloadFeed cfg p (a ++ b)).2 = proj (ev1 ++ (payloadFeed cfg p' b).2)
+
+/-- the current body-parser state (if any) satisfies `G` -/
+def StG (G : PState → Prop) (st : St) : Prop := ∀ p, st.payload = some p → G p
 
 /-- outcomes that agree on everything observable -/
 def Equiv (o o' : FeedOut) : Prop :=
@@ -147,8 +148,8 @@ theorem acceptLine_take (cfg : Cfg) (st : St) (a b : Bytes) (pos : Nat) (h : pos
 /-- **A continuing iteration is unaffected by later bytes.** If one iteration on buffer `a`
 consumed something and goes round again with rest `a'`, then on `a ++ b` it does exactly the
 same and goes round with `a' ++ b`. -/
-theorem stepOnce_cont_append (cfg : Cfg) (urlOk : Bool → Bytes → Bool) (hl : PayloadLaws cfg)
-    (st st' : St) (a a' b : Bytes) (ev : List Ev) (hwf : ∀ p, st.payload = some p → PWf p)
+theorem stepOnce_cont_append (cfg : Cfg) (urlOk : Bool → Bytes → Bool) {G : PState → Prop} (hl : PayloadLaws cfg G)
+    (st st' : St) (a a' b : Bytes) (ev : List Ev) (hwf : StG G st)
     (h : stepOnce cfg urlOk st a = .cont st' a' ev) :
     stepOnce cfg urlOk st (a ++ b) = .cont st' (a' ++ b) ev := by
   unfold stepOnce at h ⊢
@@ -232,23 +233,6 @@ open Aio
 theorem st_eta (st : St) (h : st.tail = []) : { st with tail := [] } = st := by
   cases st; simp_all
 
-def StWf (st : St) : Prop := ∀ p, st.payload = some p → PWf p
-
-/-- every body-parser state created at the end of a header block is well-formed -/
-theorem onHeaderBlock_wf (cfg : Cfg) (urlOk : Bool → Bytes → Bool) (st st' : St) (lines : List Bytes)
-    (evs : List Ev) (sc : Bool) (h : onHeaderBlock cfg urlOk st lines = .ok (st', evs, sc))
-    (hw : StWf st) : StWf st' := by
-  unfold onHeaderBlock at h
-  simp only [] at h
-  repeat' (split at h)
-  all_goals (try (simp only [Except.ok.injEq, Prod.mk.injEq] at h; obtain ⟨h1, _, _⟩ := h; subst h1))
-  all_goals (try (cases h; done))
-  all_goals (intro p hp)
-  all_goals first
-    | exact hw p hp
-    | (simp only [Option.some.injEq] at hp; subst hp; intro ht; simp_all [PWf]; try omega)
-    | (simp at hp)
-
 end Aio.Http
 
 namespace Aio.Http
@@ -258,10 +242,10 @@ theorem sepLen_pos (lax : Bool) : 1 ≤ sepLen lax := by unfold sepLen; split <;
 
 /-- what a continuing iteration preserves: the loop invariant (`tail = []`, well-formed body
 state) and progress (the rest is shorter) -/
-theorem stepOnce_cont_inv (cfg : Cfg) (urlOk : Bool → Bytes → Bool) (hl : PayloadLaws cfg)
-    (st st' : St) (a a' : Bytes) (ev : List Ev) (ha : a ≠ []) (ht : st.tail = []) (hw : StWf st)
+theorem stepOnce_cont_inv (cfg : Cfg) (urlOk : Bool → Bytes → Bool) {G : PState → Prop} (hl : PayloadLaws cfg G)
+    (st st' : St) (a a' : Bytes) (ev : List Ev) (ha : a ≠ []) (ht : st.tail = []) (hw : StG G st)
     (h : stepOnce cfg urlOk st a = .cont st' a' ev) :
-    st'.tail = [] ∧ StWf st' ∧ a'.length < a.length := by
+    st'.tail = [] ∧ a'.length < a.length := by
   unfold stepOnce at h
   cases hp : st.payload with
   | none =>
@@ -280,7 +264,7 @@ theorem stepOnce_cont_inv (cfg : Cfg) (urlOk : Bool → Bytes → Bool) (hl : Pa
         simp at h
         obtain ⟨h1, h2, _⟩ := h
         subst h1 h2
-        refine ⟨ht, hw, ?_⟩
+        refine ⟨ht, ?_⟩
         simp; omega
       · simp only [h0] at h
         by_cases hsc : st.shouldClose = true
@@ -301,16 +285,13 @@ theorem stepOnce_cont_inv (cfg : Cfg) (urlOk : Bool → Bytes → Bool) (hl : Pa
               simp at h
               obtain ⟨h1, h2, _⟩ := h
               subst h1 h2
-              refine ⟨?_, ?_, hlen⟩
-              · simpa using (onHeaderBlock_tail cfg urlOk st s1 lines e1 sc hob).trans ht
-              · intro p hp'
-                exact onHeaderBlock_wf cfg urlOk st s1 lines e1 sc hob hw p (by simpa using hp')
+              refine ⟨?_, hlen⟩
+              simpa using (onHeaderBlock_tail cfg urlOk st s1 lines e1 sc hob).trans ht
           · simp only [hle] at h
             simp at h
             obtain ⟨h1, h2, _⟩ := h
             subst h1 h2
-            refine ⟨by simpa using ht, ?_, hlen⟩
-            intro p hp'; exact hw p (by simpa using hp')
+            exact ⟨by simpa using ht, hlen⟩
   | some p =>
     simp only [hp] at h
     cases hpf : payloadFeed cfg p a with
@@ -323,10 +304,8 @@ theorem stepOnce_cont_inv (cfg : Cfg) (urlOk : Bool → Bytes → Bool) (hl : Pa
         simp at h
         obtain ⟨h1, h2, _⟩ := h
         subst h1 h2
-        refine ⟨?_, ?_, hl.complete_shrinks p a rest pevs (hw p hp) ha hpf⟩
-        · split <;> simpa using ht
-        · intro q hq
-          split at hq <;> simp at hq
+        refine ⟨?_, hl.complete_shrinks p a rest pevs (hw p hp) ha hpf⟩
+        split <;> simpa using ht
 
 end Aio.Http
 
@@ -438,10 +417,23 @@ theorem stepOnce_payload (cfg : Cfg) (urlOk : Bool → Bytes → Bool) (st : St)
   | complete rest => rfl
   | err e rr => cases rr <;> rfl
 
+/-- every body-parser state that the run on `d` goes through satisfies `G` -/
+def GoodRun (cfg : Cfg) (urlOk : Bool → Bytes → Bool) (G : PState → Prop) : Nat → St → Bytes → Prop
+  | 0, _, _ => True
+  | f + 1, st, d =>
+    d = [] ∨ (StG G st ∧
+      match stepOnce cfg urlOk st d with
+      | .stop _ => True
+      | .cont st' d' _ => GoodRun cfg urlOk G f st' d')
+
 /-- **Two-cut theorem.** Processing `a` and then carrying on from the saved state with
-`tail ++ b` is observably the same as processing `a ++ b` at once. -/
-theorem feedLoop_append (cfg : Cfg) (urlOk : Bool → Bytes → Bool) (hl : PayloadLaws cfg) :
-    ∀ (f1 : Nat) (st : St) (a b : Bytes) (acc : List Ev), a.length < f1 → st.tail = [] → StWf st →
+`tail ++ b` is observably the same as processing `a ++ b` at once, provided the first part ended
+without an error (and without handing bytes back to an upgraded connection) and every body
+the run goes through is one for which the body-parser laws hold. -/
+theorem feedLoop_append (cfg : Cfg) (urlOk : Bool → Bytes → Bool) {G : PState → Prop}
+    (hl : PayloadLaws cfg G) :
+    ∀ (f1 : Nat) (st : St) (a b : Bytes) (acc : List Ev), a.length < f1 → st.tail = [] →
+      (∀ f, GoodRun cfg urlOk G f st (a ++ b)) →
       (feedLoop cfg urlOk f1 st a acc).err = none →
       (feedLoop cfg urlOk f1 st a acc).rest = [] →
       (∀ e, Ev.payloadErr e ∉ (feedLoop cfg urlOk f1 st a acc).evs) →
@@ -453,7 +445,7 @@ theorem feedLoop_append (cfg : Cfg) (urlOk : Bool → Bytes → Bool) (hl : Payl
   induction f1 with
   | zero => intro st a b acc h; omega
   | succ n ih =>
-    intro st a b acc hlen ht hw he hr hpe f2 f3 hf2 hf3
+    intro st a b acc hlen ht hrun he hr hpe f2 f3 hf2 hf3
     by_cases ha : a = []
     · subst ha
       have h0 := feedLoop_nil cfg urlOk n st acc
@@ -462,11 +454,24 @@ theorem feedLoop_append (cfg : Cfg) (urlOk : Bool → Bytes → Bool) (hl : Payl
       rw [st_eta st ht, feedLoop_fuel cfg urlOk f3 f2 st b acc (by simpa using hf3) hf2]
       exact Equiv.refl _
     · have hab : a ++ b ≠ [] := by cases a <;> simp_all
+      have hw : StG G st := by
+        have := hrun 1
+        simp only [GoodRun] at this
+        rcases this with h | h
+        · exact absurd h hab
+        · exact h.1
       have hunf := feedLoop_succ cfg urlOk n st a acc ha
       cases hs : stepOnce cfg urlOk st a with
       | cont st' a' ev =>
-        obtain ⟨ht', hw', hsh⟩ := stepOnce_cont_inv cfg urlOk hl st st' a a' ev ha ht hw hs
+        obtain ⟨ht', hsh⟩ := stepOnce_cont_inv cfg urlOk hl st st' a a' ev ha ht hw hs
         have hwhole := stepOnce_cont_append cfg urlOk hl st st' a a' b ev hw hs
+        have hrun' : ∀ f, GoodRun cfg urlOk G f st' (a' ++ b) := by
+          intro f
+          have := hrun (f + 1)
+          simp only [GoodRun, hwhole] at this
+          rcases this with h | h
+          · exact absurd h hab
+          · exact h.2
         rw [hs] at hunf
         simp only [hsh, if_true] at hunf
         rw [hunf] at he hr hpe hf2 ⊢
@@ -478,7 +483,7 @@ theorem feedLoop_append (cfg : Cfg) (urlOk : Bool → Bytes → Bool) (hl : Payl
           rw [hwhole] at hun2
           simp only [hsh', if_true] at hun2
           rw [hun2]
-          exact ih st' a' b (acc ++ ev) (by omega) ht' hw' he hr hpe f2 m hf2 (by simp at hf3 hsh' ⊢; omega)
+          exact ih st' a' b (acc ++ ev) (by omega) ht' hrun' he hr hpe f2 m hf2 (by simp at hf3 hsh' ⊢; omega)
       | stop o =>
         rw [hs] at hunf
         simp only [] at hunf
@@ -503,7 +508,7 @@ theorem feedLoop_append (cfg : Cfg) (urlOk : Bool → Bytes → Bool) (hl : Payl
             | mk l t u pu pl sc fl => simp only at ht; subst ht; rfl
           rw [hotail, e1] at *
           simp only [List.nil_append] at hf2 ⊢
-          have hwp' : PWf p' := hl.needs_wf p p' a o.evs (hw p hp) hpf
+          have hwp' : G p' := hl.needs_closed p p' a o.evs (hw p hp) hpf
           by_cases hb : b = []
           · subst hb
             cases f2 with
@@ -550,5 +555,139 @@ theorem feedLoop_append (cfg : Cfg) (urlOk : Bool → Bytes → Bool) (hl : Payl
                       feedLoop_fuel cfg urlOk m k _ rest [] (by simp at hf3; omega) (by simp at hf2; omega)]
                   refine ⟨Or.inl rfl, ?_, rfl, rfl⟩
                   simp [hproj]
+
+end Aio.Http
+
+namespace Aio.Http
+open Aio
+
+/-! ### the body-parser laws hold for every body that is not chunk-framed -/
+
+/-- Content-Length (with bytes left), close-delimited and absent bodies -/
+def NonChunked (p : PState) : Prop := p.type ≠ .chunked ∧ (p.type = .length → p.length ≠ 0)
+
+@[simp] theorem proj_dataEv (x : Bytes) : proj (dataEv x) = x.map Tok.byte := by
+  unfold dataEv
+  split
+  · next h =>
+    have hx : x = [] := by simpa using h
+    subst hx; rfl
+  · simp [proj, projEv]
+
+theorem payloadLaws_nonChunked (cfg : Cfg) : PayloadLaws cfg NonChunked := by
+  refine ⟨?_, ?_, ?_, ?_⟩
+  · -- complete_stable
+    intro p a b rest ev hg h
+    rcases p with ⟨ty, len, cs, csz, tl, trl, mt⟩
+    cases ty with
+    | chunked => exact absurd rfl hg.1
+    | none => simp [payloadFeed] at h
+    | untilEof => simp [payloadFeed] at h
+    | length =>
+      simp only [payloadFeed] at h ⊢
+      by_cases hz : len - a.length = 0
+      · simp only [hz, beq_self_eq_true, if_true] at h
+        injection h with h1 h2
+        injection h1 with h1
+        have hle : len ≤ a.length := by omega
+        have hz' : len - (a ++ b).length = 0 := by simp; omega
+        simp only [hz', beq_self_eq_true, if_true]
+        rw [take_append_of_le a b len hle, drop_append_of_le a b len hle, ← h1, ← h2]
+      · have : (len - a.length == 0) = false := by simpa using hz
+        simp [this] at h
+  · -- complete_shrinks
+    intro p a rest ev hg ha h
+    rcases p with ⟨ty, len, cs, csz, tl, trl, mt⟩
+    cases ty with
+    | chunked => exact absurd rfl hg.1
+    | none => simp [payloadFeed] at h
+    | untilEof => simp [payloadFeed] at h
+    | length =>
+      have hlen : len ≠ 0 := hg.2 rfl
+      simp only [payloadFeed] at h
+      by_cases hz : len - a.length = 0
+      · simp only [hz, beq_self_eq_true, if_true] at h
+        injection h with h1 _
+        injection h1 with h1
+        subst h1
+        have : 0 < a.length := by cases a <;> simp_all
+        simp; omega
+      · have : (len - a.length == 0) = false := by simpa using hz
+        simp [this] at h
+  · -- needs_closed
+    intro p p' a ev hg h
+    rcases p with ⟨ty, len, cs, csz, tl, trl, mt⟩
+    cases ty with
+    | chunked => exact absurd rfl hg.1
+    | none => simp [payloadFeed] at h; obtain ⟨h1, _⟩ := h; subst h1; exact hg
+    | untilEof => simp [payloadFeed] at h; obtain ⟨h1, _⟩ := h; subst h1; exact hg
+    | length =>
+      simp only [payloadFeed] at h
+      by_cases hz : len - a.length = 0
+      · simp [hz] at h
+      · have : (len - a.length == 0) = false := by simpa using hz
+        simp [this] at h
+        obtain ⟨h1, _⟩ := h
+        subst h1
+        exact ⟨by simp, fun _ => hz⟩
+  · -- needs_split
+    intro p p' a b ev1 hg h hb
+    rcases p with ⟨ty, len, cs, csz, tl, trl, mt⟩
+    cases ty with
+    | chunked => exact absurd rfl hg.1
+    | none =>
+      simp [payloadFeed] at h; obtain ⟨h1, h2⟩ := h; subst h1 h2
+      simp [payloadFeed]
+    | untilEof =>
+      simp [payloadFeed] at h; obtain ⟨h1, h2⟩ := h; subst h1 h2
+      simp [payloadFeed]
+    | length =>
+      simp only [payloadFeed] at h
+      by_cases hz : len - a.length = 0
+      · simp [hz] at h
+      · have hzb : (len - a.length == 0) = false := by simpa using hz
+        simp [hzb] at h
+        obtain ⟨h1, h2⟩ := h
+        subst h1 h2
+        have hlt : a.length < len := by omega
+        have e : len - a.length - b.length = len - (a ++ b).length := by simp; omega
+        have ta : a.take len = a := List.take_of_length_le (Nat.le_of_lt hlt)
+        have tab : (a ++ b).take len = a ++ b.take (len - a.length) := by
+          rw [List.take_append]; simp [ta]
+        have dab : (a ++ b).drop len = b.drop (len - a.length) := by
+          rw [List.drop_append]; simp [List.drop_of_length_le (Nat.le_of_lt hlt)]
+        simp only [payloadFeed, e, ta, tab, dab]
+        split <;> simp
+
+/-- **Segmentation independence of `feed_data` (streams without chunked bodies).** -/
+theorem feedLoop_append_nonChunked (cfg : Cfg) (urlOk : Bool → Bytes → Bool)
+    (f1 : Nat) (st : St) (a b : Bytes) (acc : List Ev) (hf1 : a.length < f1) (ht : st.tail = [])
+    (hrun : ∀ f, GoodRun cfg urlOk NonChunked f st (a ++ b))
+    (he : (feedLoop cfg urlOk f1 st a acc).err = none)
+    (hr : (feedLoop cfg urlOk f1 st a acc).rest = [])
+    (hpe : ∀ e, Ev.payloadErr e ∉ (feedLoop cfg urlOk f1 st a acc).evs)
+    (f2 f3 : Nat) (hf2 : ((feedLoop cfg urlOk f1 st a acc).st.tail ++ b).length < f2)
+    (hf3 : (a ++ b).length < f3) :
+    Equiv (feedLoop cfg urlOk f3 st (a ++ b) acc)
+          (feedLoop cfg urlOk f2 { (feedLoop cfg urlOk f1 st a acc).st with tail := [] }
+            ((feedLoop cfg urlOk f1 st a acc).st.tail ++ b) (feedLoop cfg urlOk f1 st a acc).evs) :=
+  feedLoop_append cfg urlOk (payloadLaws_nonChunked cfg) f1 st a b acc hf1 ht hrun he hr hpe f2 f3 hf2 hf3
+
+end Aio.Http
+
+namespace Aio.Http
+open Aio
+
+/-- a state without a body in progress trivially satisfies `StG` -/
+theorem stG_of_no_payload (G : PState → Prop) (st : St) (h : st.payload = none) : StG G st := by
+  intro p hp; rw [h] at hp; cases hp
+
+/-- Non-vacuity: for the request line `GET / HTTP/1.1` cut as `GET / HT` | `TP/1.1\r\n` the
+hypotheses of the two-cut theorem hold (no body is ever entered; the first part ends without
+error, keeping its bytes as the tail). -/
+example : (feedLoop {} (fun _ _ => true) 9 {} [71, 69, 84, 32, 47, 32, 72, 84] []).err = none ∧
+    (feedLoop {} (fun _ _ => true) 9 {} [71, 69, 84, 32, 47, 32, 72, 84] []).rest = [] ∧
+    (feedLoop {} (fun _ _ => true) 9 {} [71, 69, 84, 32, 47, 32, 72, 84] []).st.tail = [71, 69, 84, 32, 47, 32, 72, 84] := by
+  decide +kernel
 
 end Aio.Http
